@@ -94,6 +94,13 @@ def rule_solve_wiring(prog: Program, col: Collector) -> None:
     lim = b.get("run_steps_limit")
     ok3 = lim is not None and has_subterm(lim, ("attr", inst, "run_steps_limit"))
     col.check(ok3, ref.where(e.node), ref.short, "the step limit is the instance's run_steps_limit (or 2**n when unset)", construct="solve-limit", necessity="the trajectory length is the configured step limit")
+    # 'unset' means None: the environment is built with done_after_n_actions = run_steps_limit, so the two limits must be the same number
+    L = ("attr", inst, "run_steps_limit")
+    truthy_default = lim is not None and any(t[0] == "bool" and t[1] == "or" and any(has_subterm(x, L) for x in t[2]) for t in subterms(lim)) or \
+        (lim is not None and any(t[0] in ("ifexp", "phi") and t[1] == L for t in subterms(lim)))
+    col.check(not truthy_default, ref.where(e.node), ref.short, "the default limit replaces None only (`is None` test), not every falsy value", construct="solve-limit-truthiness",
+              necessity="`run_steps_limit or 2**n` turns the legal limit 0 into 2**n while the environment keeps its budget of 0: the two limits disagree, the episode ends at once and "
+                        "the remaining rows are padding; the sibling commands (eval, greedy, best_states) test `is None`")
 
 
 def rule_graph_game(prog: Program, col: Collector) -> None:
@@ -121,7 +128,17 @@ def rule_graph_game(prog: Program, col: Collector) -> None:
     ift = fterms(prog, init)
     gp = ("param", init.positional_params()[1])
     st = [e for e in ift.of_kind("store") if e.attr == "_graph_matrix"]
-    okc = bool(st) and (is_call_to(st[0].value, "numpy.copy", "numpy.array") and st[0].value[2] and st[0].value[2][0] == gp or st[0].value == ("call", ("attr", gp, "copy"), (), ()))
+    okc = bool(st) and (is_call_to(st[0].value, "numpy.copy", "numpy.array") and st[0].value[2] and st[0].value[2][0] == gp or st[0].value == ("call", ("attr", gp, "copy"), (), ())
+                        or (st[0].value[0] == "call" and st[0].value[1] == ("attr", gp, "astype") and dict(st[0].value[3]).get("copy") != ("const", False)))
+    if st:
+        v0 = st[0].value
+        kw0 = dict(v0[3]) if v0[0] == "call" else {}
+        typed = (is_call_to(v0, "numpy.array") and ("dtype" in kw0 or len(v0[2]) >= 2)) or \
+            (v0[0] == "call" and v0[1][0] == "attr" and v0[1][2] == "astype" and v0[2] and not (kw0.get("copy") == ("const", False)))
+        col.check(typed, init.where(st[0].node), init.short, "the stored matrix is converted to the float value type (np.array(m, dtype=Value) / m.astype(Value))",
+                  construct="graph-init-dtype",
+                  necessity="the normalisers divide the stored matrix in place: an integer matrix makes `/=` raise, a float32 one normalises to values 1e-8 away from the "
+                            "tabulated form of the same game (the value table always converts to float64)")
     col.check(okc, init.where(), init.short, "the constructor keeps a COPY of the matrix", construct="graph-init-copy",
               necessity="normalising a graph game must not modify the caller's matrix / the hidden game")
     pol = [e for e in ift.calls() if is_global(e.func, P + "graph_game._polish_graph_matrix") and e.args and (e.args[0] == M or e.args[0] == (st[0].value if st else None))]
